@@ -1433,6 +1433,28 @@ for _cls, _want in ASSIGNED_TWICE.items():
         c.no_raise()
 
 
+# ---- C19: JSON / YAML / TOML read back by their own readers give the environment's numbers also for integer nodes assigned in another unit ----
+for _cls, _reader in (("dip/config/export_json.py::ExportConfigJSON", "json"), ("dip/config/export_yaml.py::ExportConfigYAML", "yaml"), ("dip/config/export_toml.py::ExportConfigTOML", "toml")):
+    @contract(_cls + ".parse", ["C19"], name=_cls.split("::")[1] + ".parse[integers-assigned-in-another-unit]")
+    def _(c, cls=_cls, reader=_reader):
+        c.bound = "one text: integer scalars and an integer array defined in one unit and assigned again in another (the conversion works with floats); single elements cut out of arrays by a slice"
+
+        def pre(b):
+            d0 = b.new(DIPC, name="t")
+            b.call(b.getattr(d0, "add_string"), 'box\n  length int = 2 m\n  n int = 4\n  sizes int[2] = [1,2] m\nbox.length = 300 cm\nbox.sizes = [300,400] cm\nw float = 2.5 m\nw = 50 cm\nsrc int[3] = [1,2,3]\npick int = {?src}[1]\nfs float[2] = [1.5,2.5]\nfp float = {?fs}[0]')
+            return dict(args=[b.new(cls, b.call(b.getattr(d0, "parse")))], kwargs=dict(units=False), env=dict(reader=reader))
+        c.scenario("scalar-and-array-assigned-in-centimetres", pre)
+        c.ensures("read_back(reader, result) == {'box.length': 3, 'box.n': 4, 'box.sizes': [3, 4], 'w': 0.5, 'src': [1, 2, 3], 'pick': 2, 'fs': [1.5, 2.5], 'fp': 1.5}", "read-back-values-are-the-environments")
+        c.ensures("[typename(v) for v in [read_back(reader, result)['box.length'], read_back(reader, result)['box.n']]] == ['int', 'int']", "integers-are-read-back-as-integers")
+        c.no_raise()
+
+
+@spec
+def read_back(reader, text):
+    import json, yaml, toml
+    return {'json': json.loads, 'yaml': yaml.safe_load, 'toml': toml.loads}[reader](text)
+
+
 # ---- C19: save() leaves exactly the exported text in the file, whatever was at that path before ------------------------------------------------
 # the file system is the model pyvc/models/vfs.py (paths below /vfs/): an earlier file of ANY content -- in particular one of the same
 # length, as an earlier export of other values has -- is replaced; mode 'a' appends to it
